@@ -55,6 +55,9 @@ def run_c04(tier):
                    "redundant slot (per the specification) are outside the documented scope and skipped" % maxeqs,
            "exhaustive": True, "tlc": {t[0]: t[3] for t in tabs}, "replay": summaries,
            "states_skipped_redundant": sum(s["states_skipped_redundant"] for s in summaries)}
+    # design level: the operational model of rule application makes the same instances fire (spec/ApplyOp.tla)
+    import egop
+    cov["operational_apply"] = egop.run_apply(tier, tabs, prop)
     # third: recorded rewriting runs (language A, manual apply_rewrites): every instance matched in the state BEFORE the call is
     # rewritten by the call (all searchers run before any applier), judged by TraceRewrite.tla
     bad, panics, st_rw, summ_rw, lines = rw_trace(tier, prop, 3)
